@@ -59,7 +59,6 @@ Definition sign_ok (a : atom) : Prop := match a with (_, Lower, b) => 0 <= snd b
 
 Record wf (s : state) : Prop := mkWf {
   wf_tabl : wf_tab (nvars s) (tableau s);
-  wf_const0 : forall x l, In (x, l) (tableau s) -> lconst l == 0;
   wf_vals : vals_ok s;
   wf_defs : forall rho, sat_rows (tableau s) rho <-> sat_defs (exprs s) rho;
   wf_exprs : forall l x, In (l, x) (exprs s) -> (x < nvars s)%nat /\ forall v, In v (lkeys l) -> (v < nvars s)%nat;
@@ -175,11 +174,11 @@ Lemma level_inv_set n E A R cb tr x d v r :
   level_inv n E A R cb tr ->
   (forall o, bval (cb (idx x d)) = Some o -> tighter d o v) ->
   (forall o, bval (cb (idx x (opp d))) = Some o -> match d with Lower => qd_le v o | Upper => qd_le o v end) ->
-  (exists a sg, In a A /\ r = (a_b a, sg) /\ asrt_atom a sg = (x, d, v)) ->
+  ((exists a sg, In a A /\ r = (a_b a, sg) /\ asrt_atom a sg = (x, d, v)) \/ (r = TRUE_lit /\ root_just E R (x, d, v))) ->
   (x < n)%nat ->
   level_inv n E A R (fupd cb (idx x d) (mkB (Some v) r)) ((x, d, v) :: tr).
 Proof.
-  intros [C [G [V D]]] HT HC [a [sg [Ha [Hr Hat]]]] Hx. split; [| split; [| split]].
+  intros [C [G [V D]]] HT HC HJ Hx. split; [| split; [| split]].
   - intros y l u Hl Hu. destruct (Nat.eq_dec y x) as [-> | N].
     + destruct d.
       * rewrite idx_lower in *. rewrite fupd_same in Hl. simpl in Hl. injection Hl as Hl.
@@ -190,7 +189,7 @@ Proof.
       rewrite fupd_other in Hu by (destruct d; unfold idx, lb_index, ub_index; lia). eapply C; eauto.
   - intros y e w H. destruct (Nat.eq_dec (idx y e) (idx x d)) as [Eq | N].
     + destruct (idx_inj _ _ _ _ Eq) as [-> ->]. rewrite fupd_same in *. simpl in H. injection H as H. subst w.
-      right. exists a, sg. simpl. repeat split; auto.
+      destruct HJ as [[a [sg [Ha [Hr Hat]]]] | [Hr Hj]]; [right; exists a, sg; simpl; repeat split; auto | left; simpl; auto].
     + rewrite fupd_other in * by auto. destruct (G y e w H) as [K | [a' [sg' [K1 [K2 [K3 K4]]]]]]; [left; auto |].
       right. exists a', sg'. repeat split; auto. right. auto.
   - intros y e b [H | H].
@@ -227,7 +226,7 @@ Lemma stack_inv_set n E A R cb layers snaps trail x d v r :
   stack_inv n E A R cb layers snaps trail ->
   (forall o, bval (cb (idx x d)) = Some o -> tighter d o v) ->
   (forall o, bval (cb (idx x (opp d))) = Some o -> match d with Lower => qd_le v o | Upper => qd_le o v end) ->
-  (exists a sg, In a A /\ r = (a_b a, sg) /\ asrt_atom a sg = (x, d, v)) ->
+  ((exists a sg, In a A /\ r = (a_b a, sg) /\ asrt_atom a sg = (x, d, v)) \/ (r = TRUE_lit /\ layers = [])) ->
   (x < n)%nat ->
   stack_inv n E A (match layers with [] => (x, d, v) :: R | _ => R end)
             (fupd cb (idx x d) (mkB (Some v) r)) (save_layers layers cb (idx x d)) snaps (push_atom trail (x, d, v)).
@@ -237,12 +236,14 @@ Proof.
   - (* root level *)
     destruct ts as [| t2 ts2]; [| tauto]. destruct H as [LI ->]. simpl. split; auto.
     simpl in LI. rewrite app_nil_r in *.
-    pose proof (level_inv_set n E A t cb t x d v r LI HT HC HA Hx) as K.
-    destruct K as [C [G [V D]]]. split; [auto | split; [| split; auto]].
-    eapply good_mono; eauto; try apply incl_refl; try (intros z Hz; right; auto).
+    assert (LI' : level_inv n E A ((x, d, v) :: t) cb t).
+    { destruct LI as [C [G [V D]]]. split; [auto | split; [| split; auto]].
+      eapply good_mono; eauto; try apply incl_refl; try (intros z Hz; right; auto). }
+    apply (level_inv_set n E A ((x, d, v) :: t) cb t x d v r LI' HT HC); auto.
+    destruct HA as [HA | [Hr _]]; [left; exact HA | right; split; auto]. intros rho _ Hroot. apply Hroot. left. reflexivity.
   - destruct H as [LI [HR [HL HS]]]. simpl.
     assert (LI' : level_inv n E A R (fupd cb (idx x d) (mkB (Some v) r)) (concat (((x, d, v) :: t) :: ts))).
-    { simpl. apply (level_inv_set n E A R cb (t ++ concat ts) x d v r); auto. }
+    { simpl. apply (level_inv_set n E A R cb (t ++ concat ts) x d v r); auto. destruct HA as [HA | [_ K]]; [left; exact HA | discriminate]. }
     assert (HL' : looser B (fupd cb (idx x d) (mkB (Some v) r))).
     { intros y e b Hb. destruct (HL y e b Hb) as [c [K1 K2]]. destruct (Nat.eq_dec (idx y e) (idx x d)) as [Eq | N].
       - destruct (idx_inj _ _ _ _ Eq) as [-> ->]. exists v. rewrite fupd_same. split; auto.
@@ -487,7 +488,7 @@ Proof. destruct l; [congruence | reflexivity]. Qed.
 
 Lemma wf_push s : wf s -> wf (push s).
 Proof.
-  intros [W1 W2 W3 W4 W5 W6 W7 W8 W9 W10 W11 W12].
+  intros [W1 W3 W4 W5 W6 W7 W8 W9 W10 W11 W12].
   pose proof (stack_inv_trail_nonempty _ _ _ _ _ _ _ _ W12) as NE.
   assert (RA : root_atoms (push s) = root_atoms s).
   { unfold root_atoms. simpl. destruct (trail s); [congruence | reflexivity]. }
@@ -497,7 +498,7 @@ Qed.
 
 Lemma wf_pop s : wf s -> wf (pop s).
 Proof.
-  intros [W1 W2 W3 W4 W5 W6 W7 W8 W9 W10 W11 W12]. unfold pop. destruct (layers s) as [| L Ls] eqn:EL.
+  intros [W1 W3 W4 W5 W6 W7 W8 W9 W10 W11 W12]. unfold pop. destruct (layers s) as [| L Ls] eqn:EL.
   { constructor; auto. rewrite EL. auto. }
   destruct (snaps s) as [| B Bs] eqn:EB; [simpl in W12; destruct (trail s); tauto |].
   destruct (trail s) as [| t ts] eqn:ET; [simpl in W12; tauto |].
@@ -526,7 +527,7 @@ Proof. intro H. apply stack_inv_level in H. destruct H as [_ [_ [_ D]]]. exact D
 
 Lemma wf_new_var s : wf s -> wf (fst (new_var s)).
 Proof.
-  intros [W1 W2 W3 W4 W5 W6 W7 W8 W9 W10 W11 W12]. unfold new_var. cbn [fst].
+  intros [W1 W3 W4 W5 W6 W7 W8 W9 W10 W11 W12]. unfold new_var. cbn [fst].
   pose proof (stack_default _ _ _ _ _ _ _ _ W12) as D.
   assert (CB : forall i, cb s i = fupd (fupd (cb s) (lb_index (nvars s)) (mkB None TRUE_lit)) (ub_index (nvars s)) (mkB None TRUE_lit) i).
   { intro i. unfold fupd. destruct (Nat.eqb i (ub_index (nvars s))) eqn:E1.
@@ -557,10 +558,130 @@ Qed.
 (* ---------------------------------------------------------------------------------------------------------- *)
 (* new_var(lin)                                                                                                  *)
 (* ---------------------------------------------------------------------------------------------------------- *)
-(* what the public new_var(const lin&) needs from its argument: canonical, no known term, non-basic variables only.
-   Every call made by new_lt ... new_gt satisfies it (subst_basic_ok below). *)
+Lemma lkeys_lin_add a b w : In w (lkeys (lin_add a b)) -> In w (lkeys a) \/ In w (lkeys b).
+Proof. unfold lkeys, lin_add. simpl. apply (keys_fold_add (fun c => c)). Qed.
+Lemma ksorted_lin_add a b : ksorted (lkeys a) -> ksorted (lkeys (lin_add a b)).
+Proof. unfold lkeys, lin_add. simpl. apply (ksorted_fold_add (fun c => c)). Qed.
+Lemma lkeys_lin_sub a b w : In w (lkeys (lin_sub a b)) -> In w (lkeys a) \/ In w (lkeys b).
+Proof. unfold lkeys, lin_sub. simpl. apply (keys_fold_add (fun c => - c)). Qed.
+Lemma ksorted_lin_sub a b : ksorted (lkeys a) -> ksorted (lkeys (lin_sub a b)).
+Proof. unfold lkeys, lin_sub. simpl. apply (ksorted_fold_add (fun c => - c)). Qed.
+Lemma lkeys_lin_scale c a : lkeys (lin_scale c a) = lkeys a.
+Proof. unfold lkeys, lin_scale. simpl. apply (keys_map_snd (fun d => Qred (d * c))). Qed.
+
+
+(* substitution of the basic variables done by new_var(lin) *)
+Definition st_step (T : list (var * lin)) (e : lin) (t : var * Q) : lin :=
+  match trow T (fst t) with
+  | Some r => lin_add (lin_remove (fst t) e) (lin_scale (snd t) r)
+  | None => e
+  end.
+Lemma subst_terms_fold T l : subst_terms T l = fold_left (st_step T) (lterms l) l.
+Proof. reflexivity. Qed.
+
+Lemma st_fold_ok n T todo e :
+  wf_tab n T -> ksorted (lkeys e) -> (forall w, In w (lkeys e) -> (w < n)%nat /\ (trow T w = None \/ In w (map fst todo))) ->
+  ksorted (lkeys (fold_left (st_step T) todo e)) /\
+  forall w, In w (lkeys (fold_left (st_step T) todo e)) -> (w < n)%nat /\ trow T w = None.
+Proof.
+  intros [S W]. revert e. induction todo as [| [v c] todo IH]; intros e Se He; simpl.
+  - split; auto. intros w Hw. destruct (He w Hw) as [A [B | []]]. auto.
+  - apply IH.
+    + unfold st_step. simpl. destruct (trow T v) as [r |]; auto.
+      apply ksorted_lin_add. unfold lkeys, lin_remove. simpl. apply ksorted_remove_term. exact Se.
+    + intros w Hw. unfold st_step in Hw. simpl in Hw. destruct (trow T v) as [r |] eqn:Tv.
+      * apply lkeys_lin_add in Hw. destruct Hw as [Hw | Hw].
+        -- unfold lkeys, lin_remove in Hw. simpl in Hw.
+           assert (w <> v) by (intro Eq; subst; eapply remove_term_notin; eauto).
+           apply keys_remove_term in Hw. destruct (He w Hw) as [A [B | [B | B]]]; auto. simpl in B. congruence.
+        -- rewrite lkeys_lin_scale in Hw. apply trow_In in Tv. destruct (W _ _ Tv) as [_ [_ Vr]]. destruct (Vr w Hw). auto.
+      * destruct (He w Hw) as [A [B | [B | B]]]; auto. simpl in B. subst. auto.
+Qed.
+
+Lemma coef_fold_add_other (f : Q -> Q) w b a :
+  ~ In w (keys b) -> coef w (fold_left (fun acc t => add_term (fst t) (f (snd t)) acc) b a) = coef w a.
+Proof.
+  revert a. induction b as [| [v c] t IH]; intros a H; simpl; auto. rewrite IH.
+  - apply coef_add_other. intro E. apply H. left. simpl. auto.
+  - intro K. apply H. right. exact K.
+Qed.
+Lemma coef_of_In_sorted v c ts : ksorted (keys ts) -> In (v, c) ts -> coef v ts = Some c.
+Proof.
+  induction ts as [| [w d] t IH]; simpl; [tauto |]. intros [S1 S2] [K | K].
+  - injection K as -> ->. rewrite Nat.eqb_refl. reflexivity.
+  - destruct (Nat.eqb v w) eqn:E; auto. apply Nat.eqb_eq in E. subst. assert (In w (keys t)) by (apply (in_map fst) in K; exact K).
+    specialize (S1 w H). lia.
+Qed.
+
+Lemma st_fold_evalq n T rho todo e :
+  wf_tab n T -> sat_rows T rho -> NoDup (map fst todo) ->
+  (forall v c, In (v, c) todo -> trow T v <> None -> coef v (lterms e) = Some c) ->
+  evalq rho (fold_left (st_step T) todo e) == evalq rho e.
+Proof.
+  intros [S W] R. revert e. induction todo as [| [v c] todo IH]; intros e ND He; simpl; [reflexivity |].
+  inversion ND as [| ? ? Nv ND']; subst. rewrite IH; auto.
+  - unfold st_step. simpl. destruct (trow T v) as [r |] eqn:Tv; [| reflexivity].
+    assert (Cv : coef v (lterms e) = Some c) by (apply He; [left; auto | congruence]).
+    rewrite evalq_lin_add, evalq_lin_scale. rewrite (evalq_lin_remove rho v e c Cv). rewrite (R v r (trow_In _ _ _ Tv)). ring.
+  - intros w d Hin Tw. unfold st_step. simpl. destruct (trow T v) as [r |] eqn:Tv; [| apply He; [right; exact Hin | exact Tw]].
+    assert (Nwv : w <> v). { intro E. subst. apply Nv. apply (in_map fst) in Hin. exact Hin. }
+    unfold lin_add. simpl. rewrite (coef_fold_add_other (fun q => q)).
+    + unfold lin_remove. simpl. rewrite coef_remove_other by auto. apply He; [right; exact Hin | exact Tw].
+    + unfold lin_scale. simpl. fold (keys (map (fun t : var * Q => (fst t, Qred (snd t * c))) (lterms r))).
+      rewrite (keys_map_snd (fun q => Qred (q * c))). intro K. apply trow_In in Tv. destruct (W _ _ Tv) as [_ [_ Vr]].
+      destruct (Vr w K) as [_ K2]. congruence.
+Qed.
+
+(* what new_var(const lin&) needs from its argument: a canonical expression over existing variables *)
 Definition lin_ok (s : state) (l : lin) : Prop :=
-  ksorted (lkeys l) /\ lconst l == 0 /\ forall v, In v (lkeys l) -> (v < nvars s)%nat /\ trow (tableau s) v = None.
+  ksorted (lkeys l) /\ forall v, In v (lkeys l) -> (v < nvars s)%nat.
+
+Lemma subst_terms_ok s l : wf_tab (nvars s) (tableau s) -> lin_ok s l ->
+  ksorted (lkeys (subst_terms (tableau s) l)) /\
+  forall w, In w (lkeys (subst_terms (tableau s) l)) -> (w < nvars s)%nat /\ trow (tableau s) w = None.
+Proof.
+  intros W [LS LV]. rewrite subst_terms_fold. apply (st_fold_ok (nvars s)); auto.
+Qed.
+Lemma subst_terms_evalq s l rho : wf_tab (nvars s) (tableau s) -> lin_ok s l -> sat_rows (tableau s) rho ->
+  evalq rho (subst_terms (tableau s) l) == evalq rho l.
+Proof.
+  intros W [LS LV] R. rewrite subst_terms_fold. apply (st_fold_evalq (nvars s)); auto.
+  - apply ksorted_nodup. exact LS.
+  - intros v c Hin _. apply coef_of_In_sorted; auto.
+Qed.
+
+(* lb(l) <= ub(l) follows from the consistency of the variables' bounds alone *)
+Lemma bsum_pair chlo chhi ts acc acc' lo hi d :
+  bsum chlo ts acc = Some lo -> bsum chhi ts acc' = Some hi ->
+  (forall v c b b', In (v, c) ts -> chlo v c = Some b -> chhi v c = Some b' -> c * qd_at d b <= c * qd_at d b') ->
+  qd_at d acc <= qd_at d acc' -> qd_at d lo <= qd_at d hi.
+Proof.
+  revert acc acc'. induction ts as [| [v c] t IH]; intros acc acc' H1 H2 K A; simpl in *.
+  - injection H1 as <-. injection H2 as <-. exact A.
+  - destruct (chlo v c) as [b |] eqn:E1; [| discriminate]. destruct (chhi v c) as [b' |] eqn:E2; [| discriminate].
+    apply (IH _ _ H1 H2); [intros; eapply K; eauto |]. rewrite !qd_at_add, !qd_at_scale.
+    specialize (K v c b b' (or_introl eq_refl) E1 E2). lra.
+Qed.
+Lemma lb_lin_le_ub_lin s l lo hi : consistent (cb s) -> lb_lin s l = Some lo -> ub_lin s l = Some hi -> qd_le lo hi.
+Proof.
+  intros C H1 H2. unfold lb_lin in H1. unfold ub_lin in H2. rewrite lb_terms_bsum in H1. rewrite ub_terms_bsum in H2.
+  apply qd_le_of_ev.
+  assert (K : ev (fun d => forall t, In t (lterms l) -> forall b b',
+               (if qpos (snd t) then lbv s (fst t) else ubv s (fst t)) = Some b -> (if qpos (snd t) then ubv s (fst t) else lbv s (fst t)) = Some b' ->
+               snd t * qd_at d b <= snd t * qd_at d b')).
+  { apply ev_Forall with (P := fun t d => forall b b',
+               (if qpos (snd t) then lbv s (fst t) else ubv s (fst t)) = Some b -> (if qpos (snd t) then ubv s (fst t) else lbv s (fst t)) = Some b' ->
+               snd t * qd_at d b <= snd t * qd_at d b').
+    intros [v c] _. simpl. destruct (qpos c) eqn:Pc.
+    - apply qpos_true in Pc. destruct (lbv s v) as [b0 |] eqn:Lb; [| apply ev_all; intros d _ b b' E; discriminate].
+      destruct (ubv s v) as [b1 |] eqn:Ub; [| apply ev_all; intros d _ b b' _ E; discriminate].
+      eapply ev_mono; [| exact (ev_le_of_qd_le _ _ (C v b0 b1 Lb Ub))]. intros d _ Hd b b' E1 E2. injection E1 as <-. injection E2 as <-. cbv beta in Hd. nra.
+    - apply qpos_false in Pc. destruct (ubv s v) as [b1 |] eqn:Ub; [| apply ev_all; intros d _ b b' E; discriminate].
+      destruct (lbv s v) as [b0 |] eqn:Lb; [| apply ev_all; intros d _ b b' _ E; discriminate].
+      eapply ev_mono; [| exact (ev_le_of_qd_le _ _ (C v b0 b1 Lb Ub))]. intros d _ Hd b b' E1 E2. injection E1 as <-. injection E2 as <-. cbv beta in Hd. nra. }
+  eapply ev_mono; [| exact K]. intros d _ K2.
+  apply (bsum_pair _ _ _ _ _ _ _ d H1 H2); [| lra]. intros v c b b' Hin E1 E2. apply (K2 (v, c) Hin b b' E1 E2).
+Qed.
 
 Lemma find_expr_some E l x : find_expr E l = Some x -> exists m, In (m, x) E /\ lin_eqb m l = true.
 Proof.
@@ -589,7 +710,7 @@ Definition nvl_cb (s : state) (l : lin) : nat -> bound :=
              (lb_index (nvars s)) (mkB (red_opt (lb_lin s l)) TRUE_lit)) (ub_index (nvars s)) (mkB (red_opt (ub_lin s l)) TRUE_lit).
 Definition nvl_state (s : state) (l : lin) : state :=
   mkS (S (nvars s)) (nvl_cb s l) (fupd (fupd (vals s) (nvars s) (0, 0)) (nvars s) (qd_red (value_lin s l)))
-      (tinsert (nvars s) l (tableau s)) ((l, nvars s) :: (lin_var (nvars s), nvars s) :: exprs s)
+      (tinsert (nvars s) (subst_terms (tableau s) l) (tableau s)) ((l, nvars s) :: (lin_var (nvars s), nvars s) :: exprs s)
       (asrts s) (conjs s) (layers s) (trail s) (snaps s).
 Lemma new_var_lin_fresh s l : find_expr (exprs s) l = None -> new_var_lin s l = (nvl_state s l, nvars s).
 Proof. intro H. unfold new_var_lin. rewrite H. reflexivity. Qed.
@@ -605,44 +726,44 @@ Proof. unfold nvl_cb. apply fupd_same. Qed.
 
 Lemma wf_nvl_state s l : wf s -> layers s = [] -> lin_ok s l -> wf (nvl_state s l).
 Proof.
-  intros [W1 W2 W3 W4 W5 W6 W7 W8 W9 W10 W11 W12] Root [LS [LC LV]].
+  intros [W1 W3 W4 W5 W6 W7 W8 W9 W10 W11 W12] Root LO. pose proof LO as [LS LV].
   set (n := nvars s) in *.
   assert (Tn : trow (tableau s) n = None) by (eapply trow_ge_none; eauto).
+  destruct (subst_terms_ok s l W1 LO) as [ES EV]. set (e := subst_terms (tableau s) l) in *.
+  assert (EE : forall rho, sat_rows (tableau s) rho -> evalq rho e == evalq rho l) by (intros rho R; apply (subst_terms_evalq s l rho W1 LO R)).
   assert (Hstack := W12). rewrite Root in Hstack.
-  destruct (snaps s) as [| B Bs] eqn:ES; [| simpl in Hstack; tauto].
+  destruct (snaps s) as [| B Bs] eqn:ES'; [| simpl in Hstack; tauto].
   destruct (trail s) as [| t0 ts] eqn:ET; [simpl in Hstack; tauto |]. destruct ts as [| t1 ts]; [| simpl in Hstack; tauto].
   simpl in Hstack. rewrite app_nil_r in Hstack. destruct Hstack as [[C [G [V D]]] HR].
   assert (RA : root_atoms s = t0) by (unfold root_atoms; rewrite ET; reflexivity).
-  assert (Wk : forall v, In v (lkeys l) -> within (cb s) v (vals s v)).
-  { intros v Hv. destruct (LV v Hv). apply W9; auto. }
-  constructor; unfold nvl_state; proj.
+  constructor; unfold nvl_state; proj; fold n; fold e.
   - (* tableau *)
     destruct W1 as [S W]. split; [apply ksorted_tinsert; auto |].
     intros x m Hin. apply In_tinsert in Hin. destruct Hin as [Hin | Hin].
-    + injection Hin as -> ->. split; [lia | split; auto]. intros v Hv. destruct (LV v Hv) as [A Bn]. split; [lia |].
-      rewrite trow_tinsert by auto. fold n. destruct (Nat.eqb v n) eqn:E; auto. apply Nat.eqb_eq in E. lia.
+    + injection Hin as -> ->. split; [lia | split; auto]. intros v Hv. destruct (EV v Hv) as [A Bn]. split; [fold n in A; lia |].
+      rewrite trow_tinsert by auto. destruct (Nat.eqb v n) eqn:E; auto. apply Nat.eqb_eq in E. fold n in A. lia.
     + destruct (W _ _ Hin) as [A [Bs' Cv]]. split; [lia | split; auto]. intros v Hv. destruct (Cv v Hv) as [A1 A2]. split; [lia |].
-      rewrite trow_tinsert by auto. fold n. destruct (Nat.eqb v n) eqn:E; auto. apply Nat.eqb_eq in E. fold n in A1. lia.
-  - intros x m Hin. apply In_tinsert in Hin. destruct Hin as [Hin | Hin]; [injection Hin as -> ->; auto | eapply W2; eauto].
+      rewrite trow_tinsert by auto. destruct (Nat.eqb v n) eqn:E; auto. apply Nat.eqb_eq in E. lia.
   - (* values *)
     intro d. proj. apply sat_rows_tinsert; auto. split.
-    + unfold valq at 1. rewrite fupd_same. rewrite qd_at_red, value_lin_at. apply evalq_ext.
-      intros v Hv. destruct (LV v Hv) as [A _]. unfold valq. rewrite !fupd_other by (fold n in A; lia). reflexivity.
+    + unfold valq at 1. rewrite fupd_same. rewrite qd_at_red, value_lin_at. rewrite <- (EE _ (W3 d)). apply evalq_ext.
+      intros v Hv. destruct (EV v Hv) as [A _]. unfold valq. rewrite !fupd_other by (fold n in A; lia). reflexivity.
     + apply (sat_rows_ext n _ (valq d (vals s))); auto. intros v Hv. unfold valq. rewrite !fupd_other by lia. reflexivity.
-  - intro rho. rewrite sat_rows_tinsert by auto. rewrite W4. unfold sat_defs. split.
+  - intro rho. rewrite sat_rows_tinsert by auto. unfold sat_defs. split.
     + intros [H1 H2] m x [K | [K | K]].
-      * injection K as <- <-. exact H1.
+      * injection K as <- <-. rewrite H1. apply EE. exact H2.
       * injection K as <- <-. rewrite evalq_lin_var. reflexivity.
-      * apply H2. exact K.
-    + intro H. split; [apply H; left; auto |]. intros m x K. apply H. right. right. exact K.
+      * apply (proj1 (W4 rho) H2). exact K.
+    + intro H. assert (H2 : sat_rows (tableau s) rho). { apply (W4 rho). intros m x K. apply H. right. right. exact K. }
+      split; auto. rewrite (EE _ H2). apply H. left. reflexivity.
   - intros m x [K | [K | K]].
-    + injection K as <- <-. split; [lia |]. intros v Hv. destruct (LV v Hv). lia.
+    + injection K as <- <-. split; [lia |]. intros v Hv. specialize (LV v Hv). fold n in LV. lia.
     + injection K as <- <-. split; [lia |]. intros v [<- | []]. simpl. lia.
     + destruct (W5 _ _ K) as [A Bv]. split; [lia |]. intros v Hv. specialize (Bv v Hv). lia.
   - exact W6.
   - intros a Ha. destruct (W7 a Ha) as [A [Bx Ce]]. split; [auto | split; [lia | auto]].
   - exact W8.
-  - intros x Hx Tx. rewrite trow_tinsert in Tx by auto. fold n in Tx. destruct (Nat.eqb x n) eqn:E; [discriminate |]. apply Nat.eqb_neq in E.
+  - intros x Hx Tx. rewrite trow_tinsert in Tx by auto. destruct (Nat.eqb x n) eqn:E; [discriminate |]. apply Nat.eqb_neq in E.
     assert (Hw : within (cb s) x (vals s x)) by (apply W9; auto; lia).
     rewrite !fupd_other by auto. destruct Hw as [H1 H2]. split; intros b Hb.
     + apply H1. rewrite <- idx_lower. rewrite <- (nvl_cb_other s l x Lower E). exact Hb.
@@ -650,19 +771,18 @@ Proof.
   - exact W10.
   - intros x d b Ha. specialize (W11 x d b Ha). lia.
   - (* the stack: root level *)
-    rewrite Root, ES, ET. unfold root_atoms. proj. simpl. rewrite app_nil_r. split; auto. fold n.
+    rewrite Root, ES', ET. unfold root_atoms. proj. simpl. rewrite app_nil_r. split; auto.
     assert (Gs : forall rho, sat_defs ((l, n) :: (lin_var n, n) :: exprs s) rho -> (forall r, In r t0 -> sat_atom rho r) -> sat_bounds (cb s) rho).
     { intros rho Hd Hr x d v Hb. rewrite RA in G. eapply (good_sound _ _ _ _ _ rho G); eauto.
       intros m y K. apply Hd. right. right. exact K. }
     split; [| split; [| split]].
     + (* consistent *)
       intros x lo hi Hl Hu. destruct (Nat.eq_dec x n) as [-> | N].
-      * fold n in Hl, Hu. unfold n in Hl, Hu. rewrite nvl_cb_lb in Hl. rewrite nvl_cb_ub in Hu. simpl in Hl, Hu.
+      * unfold n in Hl, Hu. rewrite nvl_cb_lb in Hl. rewrite nvl_cb_ub in Hu. simpl in Hl, Hu.
         destruct (lb_lin s l) as [lo' |] eqn:EL; [| discriminate]. destruct (ub_lin s l) as [hi' |] eqn:EU; [| discriminate].
         simpl in Hl, Hu. injection Hl as <-. injection Hu as <-.
         eapply qd_le_trans; [apply qd_eq_le; apply qd_red_eq |].
-        eapply qd_le_trans; [apply (within_lb_le_value s l lo'); auto |].
-        eapply qd_le_trans; [apply (within_value_le_ub s l hi'); auto |]. apply qd_eq_le. apply qd_eq_sym. apply qd_red_eq.
+        eapply qd_le_trans; [apply (lb_lin_le_ub_lin s l lo' hi' C EL EU) |]. apply qd_eq_le. apply qd_eq_sym. apply qd_red_eq.
       * rewrite <- idx_lower in Hl. rewrite <- idx_upper in Hu. rewrite nvl_cb_other in Hl, Hu by auto. eapply C; eauto.
     + (* good *)
       intros x d v Hb. destruct (Nat.eq_dec x n) as [-> | N].
@@ -694,17 +814,6 @@ Qed.
 (* ---------------------------------------------------------------------------------------------------------- *)
 (* new_lt / new_leq / new_geq / new_gt / new_eq                                                                  *)
 (* ---------------------------------------------------------------------------------------------------------- *)
-Lemma lkeys_lin_add a b w : In w (lkeys (lin_add a b)) -> In w (lkeys a) \/ In w (lkeys b).
-Proof. unfold lkeys, lin_add. simpl. apply (keys_fold_add (fun c => c)). Qed.
-Lemma ksorted_lin_add a b : ksorted (lkeys a) -> ksorted (lkeys (lin_add a b)).
-Proof. unfold lkeys, lin_add. simpl. apply (ksorted_fold_add (fun c => c)). Qed.
-Lemma lkeys_lin_sub a b w : In w (lkeys (lin_sub a b)) -> In w (lkeys a) \/ In w (lkeys b).
-Proof. unfold lkeys, lin_sub. simpl. apply (keys_fold_add (fun c => - c)). Qed.
-Lemma ksorted_lin_sub a b : ksorted (lkeys a) -> ksorted (lkeys (lin_sub a b)).
-Proof. unfold lkeys, lin_sub. simpl. apply (ksorted_fold_add (fun c => - c)). Qed.
-Lemma lkeys_lin_scale c a : lkeys (lin_scale c a) = lkeys a.
-Proof. unfold lkeys, lin_scale. simpl. apply (keys_map_snd (fun d => Qred (d * c))). Qed.
-
 Definition subst_step (T : list (var * lin)) (e : lin) (v : var) : lin :=
   match trow T v with
   | Some r => match coef v (lterms e) with
@@ -770,7 +879,7 @@ Proof.
   destruct (subst_basic_ok (nvars s) (tableau s) (lin_sub a b) (wf_tabl s W)) as [K1 K2].
   - apply ksorted_lin_sub. exact Sa.
   - intros w Hw. apply lkeys_lin_sub in Hw. destruct Hw; auto.
-  - split; [exact K1 | split; [reflexivity | exact K2]].
+  - split; [exact K1 | intros v Hv; apply (K2 v Hv)].
 Qed.
 
 Lemma new_var_lin_fields s l :
@@ -801,7 +910,7 @@ Lemma wf_add_asrt s a :
   wf s -> a_b a <> 0%nat -> (forall a', In a' (asrts s) -> a_b a' <> a_b a) -> (forall p q c, In (p, q, c) (conjs s) -> fst c <> a_b a) ->
   (a_x a < nvars s)%nat -> eps_ok a -> wf (add_asrt s a).
 Proof.
-  intros [W1 W2 W3 W4 W5 W6 W7 W8 W9 W10 W11 W12] H0 HA HC HX HE.
+  intros [W1 W3 W4 W5 W6 W7 W8 W9 W10 W11 W12] H0 HA HC HX HE.
   constructor; unfold add_asrt; proj; auto.
   - rewrite map_app. simpl. apply NoDup_app_one; auto. intro K. apply in_map_iff in K. destruct K as [a' [K1 K2]]. eapply HA; eauto.
   - intros a' Ha. apply in_app_or in Ha. destruct Ha as [Ha | [<- | []]]; auto.
@@ -900,7 +1009,7 @@ Qed.
 
 Lemma wf_add_conj s p q fresh : wf s -> fresh_ok s fresh -> wf (add_conj s (p, q, (fresh, true))).
 Proof.
-  intros [W1 W2 W3 W4 W5 W6 W7 W8 W9 W10 W11 W12] [F0 [FA FC]]. constructor; unfold add_conj; proj; auto.
+  intros [W1 W3 W4 W5 W6 W7 W8 W9 W10 W11 W12] [F0 [FA FC]]. constructor; unfold add_conj; proj; auto.
   intros x y c [K | K]; [| eapply W8; eauto]. injection K as <- <- <-. simpl. split; auto.
   intro K2. apply in_map_iff in K2. destruct K2 as [a' [K3 K4]]. specialize (FA a' K4). lia.
 Qed.
@@ -977,7 +1086,7 @@ Lemma wf_al_noop s x_i d val :
   wf (al_noop s x_i d val).
 Proof.
   intros W Hx Hs Ho. pose proof (root_atoms_push s (al_noop s x_i d val) (x_i, d, val) W eq_refl) as RA. pose proof (all_atoms_push s (x_i, d, val)) as AA.
-  destruct W as [W1 W2 W3 W4 W5 W6 W7 W8 W9 W10 W11 W12].
+  destruct W as [W1 W3 W4 W5 W6 W7 W8 W9 W10 W11 W12].
   assert (W : wf s) by (constructor; auto).
   constructor; unfold al_noop; proj; auto.
   - intros a Ha. unfold all_atoms in Ha. proj. apply (AA a W) in Ha. destruct Ha as [-> | Ha]; auto.
@@ -996,7 +1105,7 @@ Proof. unfold is_basic. destruct (trow (tableau s) x); split; congruence. Qed.
 (* the state after a bound has been tightened and the value of a non-basic variable moved onto it *)
 Lemma wf_al_set_gen s x_i d val p (s2 : state) :
   wf s -> (x_i < nvars s)%nat -> sign_ok (x_i, d, val) ->
-  (exists a sg, In a (asrts s) /\ p = (a_b a, sg) /\ asrt_atom a sg = (x_i, d, val)) ->
+  ((exists a sg, In a (asrts s) /\ p = (a_b a, sg) /\ asrt_atom a sg = (x_i, d, val)) \/ (p = TRUE_lit /\ layers s = [])) ->
   (forall o, bval (cb s (idx x_i d)) = Some o -> tighter d o val) ->
   (forall o, bval (cb s (idx x_i (opp d))) = Some o -> match d with Lower => qd_le val o | Upper => qd_le o val end) ->
   (* s2 = al_set with possibly updated values *)
@@ -1009,7 +1118,7 @@ Lemma wf_al_set_gen s x_i d val p (s2 : state) :
 Proof.
   intros W Hx Hs HA HT HC En Ecb Et Ee Ea Ec El Etr Es Vok Vother Vself.
   pose proof (root_atoms_push s s2 (x_i, d, val) W Etr) as RA. pose proof (all_atoms_push s (x_i, d, val)) as AA.
-  destruct W as [W1 W2 W3 W4 W5 W6 W7 W8 W9 W10 W11 W12].
+  destruct W as [W1 W3 W4 W5 W6 W7 W8 W9 W10 W11 W12].
   assert (W : wf s) by (constructor; auto).
   constructor; rewrite ?En, ?Et, ?Ee, ?Ea, ?Ec, ?Es; auto.
   - intros x Hxn Tx. destruct (Nat.eq_dec x x_i) as [-> | N].
@@ -1028,7 +1137,7 @@ Proof. apply qd_ltb_false. Qed.
 
 Lemma wf_al_lower_state s x_i val p :
   wf s -> (x_i < nvars s)%nat -> 0 <= snd val ->
-  (exists a sg, In a (asrts s) /\ p = (a_b a, sg) /\ asrt_atom a sg = (x_i, Lower, val)) ->
+  ((exists a sg, In a (asrts s) /\ p = (a_b a, sg) /\ asrt_atom a sg = (x_i, Lower, val)) \/ (p = TRUE_lit /\ layers s = [])) ->
   le_lb val (lbv s x_i) = false -> gt_ub val (ubv s x_i) = false ->
   wf (al_lower_state s x_i val p).
 Proof.
@@ -1059,7 +1168,7 @@ Qed.
 
 Lemma wf_al_upper_state s x_i val p :
   wf s -> (x_i < nvars s)%nat -> snd val <= 0 ->
-  (exists a sg, In a (asrts s) /\ p = (a_b a, sg) /\ asrt_atom a sg = (x_i, Upper, val)) ->
+  ((exists a sg, In a (asrts s) /\ p = (a_b a, sg) /\ asrt_atom a sg = (x_i, Upper, val)) \/ (p = TRUE_lit /\ layers s = [])) ->
   ge_ub val (ubv s x_i) = false -> lt_lb val (lbv s x_i) = false ->
   wf (al_upper_state s x_i val p).
 Proof.
@@ -1090,7 +1199,7 @@ Qed.
 
 Lemma wf_assert_lower s al x_i val p :
   wf s -> (x_i < nvars s)%nat -> 0 <= snd val ->
-  (exists a sg, In a (asrts s) /\ p = (a_b a, sg) /\ asrt_atom a sg = (x_i, Lower, val)) ->
+  ((exists a sg, In a (asrts s) /\ p = (a_b a, sg) /\ asrt_atom a sg = (x_i, Lower, val)) \/ (p = TRUE_lit /\ layers s = [])) ->
   wf (fst (assert_lower s al x_i val p)).
 Proof.
   intros W Hx Hs HA. rewrite assert_lower_fst. destruct (le_lb val (lbv s x_i)) eqn:E1.
@@ -1100,7 +1209,7 @@ Proof.
 Qed.
 Lemma wf_assert_upper s al x_i val p :
   wf s -> (x_i < nvars s)%nat -> snd val <= 0 ->
-  (exists a sg, In a (asrts s) /\ p = (a_b a, sg) /\ asrt_atom a sg = (x_i, Upper, val)) ->
+  ((exists a sg, In a (asrts s) /\ p = (a_b a, sg) /\ asrt_atom a sg = (x_i, Upper, val)) \/ (p = TRUE_lit /\ layers s = [])) ->
   wf (fst (assert_upper s al x_i val p)).
 Proof.
   intros W Hx Hs HA. rewrite assert_upper_fst. destruct (ge_ub val (ubv s x_i)) eqn:E1.
@@ -1125,13 +1234,13 @@ Proof.
   assert (Hpe : p = (a_b a, snd p)) by (destruct p; simpl in *; congruence).
   unfold eps_ok in Ae. subst bv. destruct (snd p) eqn:Sp; destruct (a_o a) eqn:Oa.
   - apply wf_assert_upper; auto. { destruct Ae as [K | K]; rewrite K; lra. }
-    exists a, true. split; [auto | split; [auto |]]. unfold asrt_atom. rewrite Oa. reflexivity.
+    left. exists a, true. split; [auto | split; [auto |]]. unfold asrt_atom. rewrite Oa. reflexivity.
   - apply wf_assert_lower; auto. { destruct Ae as [K | K]; rewrite K; lra. }
-    exists a, true. split; [auto | split; [auto |]]. unfold asrt_atom. rewrite Oa. reflexivity.
+    left. exists a, true. split; [auto | split; [auto |]]. unfold asrt_atom. rewrite Oa. reflexivity.
   - apply wf_assert_lower; auto. { unfold qd_red, qd_add, qd_eps. cbn [fst snd]. rewrite Qred_correct. destruct Ae as [K | K]; rewrite K; lra. }
-    exists a, false. split; [auto | split; [auto |]]. unfold asrt_atom. rewrite Oa. reflexivity.
+    left. exists a, false. split; [auto | split; [auto |]]. unfold asrt_atom. rewrite Oa. reflexivity.
   - apply wf_assert_upper; auto. { unfold qd_red, qd_sub, qd_eps. cbn [fst snd]. rewrite Qred_correct. destruct Ae as [K | K]; rewrite K; lra. }
-    exists a, false. split; [auto | split; [auto |]]. unfold asrt_atom. rewrite Oa. reflexivity.
+    left. exists a, false. split; [auto | split; [auto |]]. unfold asrt_atom. rewrite Oa. reflexivity.
 Qed.
 
 (* ---------------------------------------------------------------------------------------------------------- *)
@@ -1172,13 +1281,12 @@ Lemma wf_pivot_and_update s x_i x_j v ri aij :
 Proof.
   intros W Hi Hj Hz Hw.
   pose proof (vals_ok_pivot_and_update s x_i x_j v ri aij (wf_tabl s W) (wf_vals s W) Hi Hj Hz) as Vok.
-  destruct W as [W1 W2 W3 W4 W5 W6 W7 W8 W9 W10 W11 W12].
+  destruct W as [W1 W3 W4 W5 W6 W7 W8 W9 W10 W11 W12].
   unfold pivot_and_update in *. rewrite Hi, Hj in *.
   match goal with |- wf (pivot (set_vals s ?f) _ _) => set (vl := f) in * end.
   rewrite (pivot_unfold (set_vals s vl) x_i x_j ri aij) in * by (simpl; auto).
   constructor; unfold set_tableau, set_vals in *; proj; auto.
   - apply wf_tab_pivot; auto.
-  - apply const0_pivot_tab; auto.
   - intro rho. rewrite (pivot_tab_equiv (nvars s) (tableau s) ri x_i x_j aij rho W1 Hi Hj Hz). apply (W4 rho).
   - intros x Hx Tx. rewrite (trow_pivot_tab (nvars s) _ _ _ _ _ x W1 Hi Hj) in Tx.
     destruct (Nat.eqb x x_j) eqn:E1; [discriminate |]. unfold vl. destruct (Nat.eqb x x_i) eqn:E2.
@@ -1248,6 +1356,7 @@ Definition ok_event (s : state) (e : event) : Prop :=
   | ENewRel r a b fresh => layers s = [] /\ rel_args_ok s a b /\ fresh_ok s fresh
   | ENewEq al a b fresh => layers s = [] /\ rel_args_ok s a b /\ fresh_ok s fresh
   | EPropagate al p => lvalue al p = Some true
+  | ESetBound al d x v => layers s = [] /\ (x < nvars s)%nat /\ sign_ok (x, d, v)
   | ECheck _ => True
   | EPush => True
   | EPop => True
@@ -1282,6 +1391,9 @@ Proof.
   - destruct Ok as [R [A F]]. pose proof (wf_new_eq s al left right fresh W R A F) as H.
     destruct (new_eq al left right fresh s) as [[s' l'] n']. exact H.
   - pose proof (wf_propagate s al p W Ok) as H. destruct (propagate s al p). exact H.
+  - destruct Ok as [R [Hx Sg]]. destruct d.
+    + pose proof (wf_assert_lower s al x v TRUE_lit W Hx Sg (or_intror (conj eq_refl R))) as H. destruct (assert_lower s al x v TRUE_lit). exact H.
+    + pose proof (wf_assert_upper s al x v TRUE_lit W Hx Sg (or_intror (conj eq_refl R))) as H. destruct (assert_upper s al x v TRUE_lit). exact H.
   - pose proof (wf_check fuel s W) as H. destruct (check fuel s). exact H.
   - apply wf_push. exact W.
   - apply wf_pop. exact W.
